@@ -15,7 +15,9 @@ PROPERTY = {
     ],
     'bounds': {'wrapping chains': "['x'], ['p'], ['w','p'], ['z','x'], ['n','w'] (keys that also occur inside the documents)",
                'stages': '2 (quick) / 2..3 (thorough)', 'flags': 'newer node: delete {absent,T,F} x priority {absent,-1,0,1}; two older entries: priority {absent,-1,0,1} / {absent,1}',
-               'sibling experiment': 'a sibling entry of the focus (inside and outside the deleting node) gets an arbitrary priority / different content; every other path must come out identical'},
+               'sibling experiment': 'a sibling entry of the focus (inside and outside the deleting node) gets an arbitrary priority / different content; every other path must come out identical',
+               'key names': 'an entry of the newer node named x / y / n / v (keys occurring one and two levels below an unmentioned sibling mapping) vs a fresh name, symbolic priorities and delete flag',
+               },
     'outside': ['wrapping under list indices', 'chains longer than 2'],
     'per_split_timeout': {'quick': 600, 'thorough': 1800},
     'wall_budget': {'quick': 1500, 'thorough': 7000},
@@ -149,6 +151,46 @@ def c05_wrap_ops(split, op, n, ki, ci):
     return cur == base[1]
 
 
+RENAMES = ['x', 'y', 'n', 'v']      # names that also occur as keys one and two levels below an unmentioned sibling mapping
+OLD_DEEP = 'a: {b: {x: %(SA)s 1, y: 2, n: {y: %(SB)s 4, v: 5}}, c: 3}'
+
+
+def c05_rename(split, ki, ppn, pn, dpn, dn, ppa, pa, ppb, pb, ppk, pk):
+    """the newer document holds ONE entry next to an unmentioned mapping; naming that entry like a key somewhere
+    below the unmentioned mapping (vs. a fresh name) must not change anything but the entry's own key"""
+    reset()
+    K = RENAMES[pick(ki, len(RENAMES))]
+    fa, fb = _flags(ppa, pa), _flags(ppb, pb)
+    fn, fk = _flags(ppn, pn, dpn, dn), _flags(ppk, pk)
+
+    def docs(key):
+        old = OLD_DEEP % {'SA': site('sa', fa) if fa else '', 'SB': site('sb', fb) if fb else ''}
+        new = 'a: %s {%s: %s 9}' % (site('sn', fn) if fn else '', key, site('sk', fk) if fk else '')
+        out = [old, new]
+        if split.get('third'):
+            out.append('a: {b: {t: 7}}')
+        return out
+    d1, d2 = docs(K), docs('fresh')
+    r1, r2 = _outcome(d1), _outcome(d2)
+    note(docs1=d1, docs2=d2, r1=repr(r1), r2=repr(r2))
+    if r1[0] == 'err' or r2[0] == 'err':
+        wit('error')
+        return r1 == r2
+    wit('built')
+    a1, a2 = dict(r1[1]['a']), dict(r2[1]['a'])
+    if K in a1:
+        wit('entry_present')
+    # rename the entry back and compare everything
+    if ('fresh' in a2) != (K in a1):
+        return False
+    if K in a1:
+        if a1[K] != a2['fresh']:
+            return False
+        del a1[K]
+        del a2['fresh']
+    return a1 == a2
+
+
 def _splits_wrap(tier):
     out = []
     for ci in range(len(CHAINS)):
@@ -184,6 +226,12 @@ PARAMS = [('ppn', 'bool'), ('pn', 'int', -1, 1), ('dpn', 'bool'), ('dn', 'bool')
           ('ppa', 'bool'), ('pa', 'int', -1, 1), ('ppb', 'bool'), ('pb', 'int', 1, 1)]
 
 HARNESSES = {
+    'c05_rename': Harness('c05_rename', c05_rename,
+                          [('ki', 'int', 0, len(RENAMES) - 1)] + PARAMS + [('ppk', 'bool'), ('pk', 'int', -1, 1)],
+                          lambda tier: [{'third': t, '_pre': 'ki == %d and %s' % (k, pre)} for t in ((False,) if tier == 'quick' else (False, True))
+                                        for k in range(len(RENAMES)) for pre in ('dpn and dn', 'dpn and not dn and ppn', 'dpn and not dn and not ppn', 'not dpn and ppn', 'not dpn and not ppn')],
+                          doc='two builds per path: an entry of the newer (possibly deleting) node named like a key below an unmentioned sibling mapping vs a fresh name; symbolic priorities on that entry, on the node and on two nested older leaves',
+                          witnesses=('built', 'entry_present')),
     'c05_wrap': Harness('c05_wrap', c05_wrap, PARAMS, _splits_wrap,
                         doc='two builds per path: documents vs documents wrapped under a key chain (keys also used inside); results must be equal under the chain',
                         witnesses=('built', 'entry_survived')),
